@@ -249,7 +249,14 @@ def reach_under(f, known, targets):
             v = ev(t.a[0])
             if v is not None:
                 nxt = [t.d['succ'][0] if v else t.d['succ'][1]]
-        keep = tuple(sorted((k, v) for k, v in pv.items() if v is not None))
+        elif t.op == 'switch':
+            nxt = [t.d['default']] + [bb for cv, bb in t.d.get('cases', [])]
+            v = ev(t.a[0])
+            if v is not None:
+                hit_ = [bb for cv, bb in t.d.get('cases', []) if int(cv) == v]
+                nxt = hit_ or [t.d['default']]
+        # only boolean-valued phis are carried along a path (flag words built from constants would multiply the states without deciding anything)
+        keep = tuple(sorted((k, v) for k, v in pv.items() if v in (0, 1)))
         for n_ in nxt:
             work.append((n_, b, keep))
     return hit
